@@ -26,6 +26,7 @@ func init() {
 			"O2 every type assertion without comma-ok is dominated by a Type()==K test on the same value with K's only implementor being the asserted type (or is a homogeneous pool / registered-decoder result); " +
 			"O3 every allocation in a decode function whose size derives from wire data is bounded by a constant or by data already received (min idiom), and every unsigned subtraction of wire lengths is dominated by a guard excluding wrap-around; " +
 			"O4 every call-graph cycle among decode functions carries an integer depth parameter that is compared with a constant (error return) and passed on increased; cycles among inspection functions recurse only into children of the current AVP. " +
+			"Further O1 discharge rules, each a local argument over the SSA: Gparam (every library caller passes a slice whose length is a known constant), Gsym (index and limit are affine forms of the wire Length and the input length that the dominating guards order), Gwrite/Gbuf (offsets into a buffer sized by the same Len() sum), the same rules applied in the caller's frame for residue sites inside functions the compiler inlined, and clamp helpers (min-style functions) for O3. " +
 			"Not decided: panics inside reflect for arbitrary struct types, nil dereferences beyond (value,error) contracts, quantitative memory beyond 'no allocation sized by an unchecked wire value', actual stack sizes.",
 		Rules: map[string]string{
 			"O1":  "no undischarged bounds-check site (compiler residue) on the decode+inspect graph",
